@@ -43,6 +43,15 @@ func H_reader_safe() {
 		in[0], in[1] = byte(want), byte(want>>8)
 	}
 	bufsz := [...]int{1, 64, 3, 2}[symInt(0, symParam("BUFS", 4)-1)]
+	checkReader(in, b2, hdr, delta, bufsz, symInt(0, symParam("STOP", 1)))
+}
+
+// the C08 obligations for one input: bounded termination, no panic, no more
+// than the declared size, and a sound Close verdict (size, CRC as
+// correct-xor-delta, canonical decoding, no invented bits)
+// stop > 0: the caller gives up after that many Read calls and calls Close
+func checkReader(in []byte, b2 bool, hdr int, delta uint16, bufsz int, stop int) {
+	n := len(in)
 
 	r, err := NewReader(bytes.NewReader(in), b2)
 	if err != nil {
@@ -59,7 +68,7 @@ func H_reader_safe() {
 	maxOut := 60 * (8*payload + 1)
 	var out []byte
 	zero := 0
-	for {
+	for calls := 1; ; calls++ {
 		p := make([]byte, bufsz)
 		m, err := r.Read(p)
 		symAssert(m >= 0 && m <= len(p), "read-count-in-range")
@@ -76,6 +85,10 @@ func H_reader_safe() {
 			symAssert(zero < 3, "read-loop-terminates (repeated (0,nil))")
 		} else {
 			zero = 0
+		}
+		if calls == stop {
+			symReach("stopped-early")
+			break
 		}
 	}
 	symReach("read-done")
